@@ -771,15 +771,14 @@ def tagOf (sel : Str) : Str :=
   | some e => ((entryGet e "control" "tag").getD "").toList
   | none => []
 
-def inlineItems (l : Str) (cs : List Choice) (qHasLabel : Bool) : Option (List ((Bool × Str) × Str)) :=
+def inlineItems (l : Str) (cs : List Choice) (_qHasLabel : Bool) : Option (List ((Bool × Str) × Str)) :=
   let itext := requiresItext cs
   let rec go : Nat → List Choice → Option (List ((Bool × Str) × Str))
     | _, [] => some []
     | i, c :: rest =>
       let lab : Option (Bool × Str) :=
         if itext then some (true, c!"jr:itext('" ++ l ++ c!"-" ++ natToStr i ++ c!"')")
-        else if qHasLabel then (match c.label with | .plain s => some (false, s) | _ => some (false, []))
-        else some (false, [])
+        else (match c.label with | .plain s => some (false, s) | _ => some (false, []))   -- `elif option.label` (51586cd)
       match lab, go (i + 1) rest with
       | some x, some r => some ((x, c.name) :: r)
       | _, _ => none
